@@ -341,6 +341,12 @@ func c09Random(r *rand.Rand) c09Anim {
 		}
 		if opaque {
 			f.FlagAlpha = r.Intn(2) == 0
+		} else if full := f.X == 0 && f.Y == 0 && f.W == a.CW && f.H == a.CH; !full && r.Intn(6) == 0 {
+			// The flag is a hint of the bitstream header and can understate (a VP8L stream whose alpha_is_used bit is
+			// clear may still carry translucent pixels; libwebp decodes them as such): compositing goes by the pixels.
+			// Exact full-canvas frames are left out: there the player, like libwebp's, takes the flag's word for
+			// "this frame replaces everything" (section 6, examined and not claimed).
+			f.FlagAlpha = false
 		}
 		a.Frames = append(a.Frames, f)
 		a.Pix = append(a.Pix, p)
